@@ -358,6 +358,9 @@ class BlePairing(AbstractPairing):
 
     def _update_cached_state_num(self, state_num: int) -> None:
         """Update the cached state number which is restored between restarts."""
+        if not self._accessories_state:
+            # Nothing is cached until the accessories have been populated
+            return
         old_state_num = self._accessories_state.state_num
         self._accessories_state.state_num = state_num
         if old_state_num != state_num:
